@@ -503,6 +503,41 @@ def hostile_ods_documents(report):
         core.cleanup(folder)
 
 
+def unusual_streams(report):
+    """Data handed over as stream objects whose `name` is no text (temporary files) or that have none: rows and data errors
+    as for any other stream, and the text of an error can be built."""
+    import tempfile
+    import cutplace
+    from cutplace import errors
+    for fmt, rows, good, bad in (
+            ("delimited", [["D", "Format", "delimited"], ["F", "n", "", "", "", "Integer", "0...9"]], "1\r\n2\r\n", "1\r\nx\r\n"),
+            ("fixed", [["D", "Format", "fixed"], ["D", "Line delimiter", "lf"], ["F", "n", "", "", "1", "Integer", "0...9"]], "1\n2\n", "1\nx\n1")):
+        cid = cutplace.Cid()
+        cid.read("cid", rows)
+        for label, factory in (("tempfile.TemporaryFile (name is a number)", lambda: tempfile.TemporaryFile("w+", newline="")),
+                               ("tempfile.SpooledTemporaryFile (name is None)", lambda: tempfile.SpooledTemporaryFile(mode="w+", newline="")),
+                               ("io.StringIO (no name)", lambda: io.StringIO(newline=""))):
+            for text, expect_error in ((good, False), (bad, True)):
+                report.replayed += 1
+                stream = factory()
+                try:
+                    stream.write(text)
+                    stream.seek(0)
+                    items = list(cutplace.rows(cid, stream, on_error="yield"))
+                    texts = [str(item) for item in items if isinstance(item, Exception)]
+                    outcome = "rows" if not texts else "errors"
+                except errors.DataError as error:
+                    str(error)
+                    outcome = "errors"
+                except Exception as error:  # noqa
+                    outcome = "%s: %s" % (type(error).__name__, str(error)[:120])
+                finally:
+                    stream.close()
+                if outcome != ("errors" if expect_error else "rows"):
+                    report.violation("c10", {"stream": label, "format": fmt}, "rows or data errors", outcome,
+                                     "%s data from %s: %s" % (fmt, label, outcome))
+
+
 def native_excel_cells(report):
     """
     Cells a workbook can hold that have no text of their own: date serials outside the calendar (negative, the ambiguous
@@ -634,6 +669,7 @@ def run(tier, report):
     native_excel_cells(report)
     malformed_text_containers(report)
     hostile_ods_documents(report)
+    unusual_streams(report)
     report.notes["hostile_spreadsheet_cells"] = "%d hostile data cells were also stored in real .xlsx / .ods files and read through " \
                                                "cutplace.rows (both modes) and the command line" % len(
         [1 for vec, _ in jobs if vec["fmt"] in ("excel", "ods") and any(t["where"] == "data" for t in vec["targets"])])
